@@ -4,6 +4,8 @@ SPECIFICATION Spec
 CONSTANTS
   ChSC <- Ch_U_RO
   ChCS <- Ch_U_RO
+  SeqBase = 0
+  MidBase = 0
   Budget = 60000
   Workload <- WL_U_RO_sliced
   MaxFlushS = 0
